@@ -21,6 +21,29 @@ METHS = ["apply", "map", "starmap", "doublestarmap"]
 POOL_NAME = "po%ol {0} 100%s (x) [y]"
 
 
+class _OldSeq:
+    """Iterable only through __getitem__ (no __iter__, no __len__)."""
+
+    def __init__(self, items):
+        self._items = items
+
+    def __getitem__(self, i):
+        return self._items[i]
+
+
+class _Row:
+    """Supports `**row` (keys() + __getitem__) without being a Mapping."""
+
+    def __init__(self, d):
+        self._d = d
+
+    def keys(self):
+        return list(self._d)
+
+    def __getitem__(self, k):
+        return self._d[k]
+
+
 class _Returned:
     """An awaitable handed back by a plain (non-coroutine) callback."""
 
@@ -402,7 +425,19 @@ class PoolRun:
             class CallableList(list):      # an unhashable callable object
                 def __call__(self_, tid):
                     return f(tid)
-            return CallableList([1])
+            # ... which, every other time, is *empty*, hence falsy: a callback is a callback
+            # whatever its truth value (a recorder that has recorded nothing yet)
+            return CallableList([1] if self.n_cbs % 4 else [])
+        if form == 0 and inspect.iscoroutinefunction(f) and self.n_cbs % 2 == 0:
+            class Falsy:                   # a falsy object with an async __call__ ... is not a
+                def __bool__(self_):       # coroutine function for asyncio: use a falsy *partial*
+                    return False
+            import functools
+
+            class FalsyPartial(functools.partial):
+                def __bool__(self_):
+                    return False
+            return FalsyPartial(f)
         if form == 2:
             if inspect.iscoroutinefunction(f):
                 class Holder:
@@ -492,9 +527,14 @@ class PoolRun:
                 self.empty_el = (req, k, w)
                 yield [(), []][k % 2] if stars == 1 else {}
             elif stars == 1:
-                yield (req, k, w, 1)
+                # whatever `*` accepts: a tuple, or an object that is iterable only through the
+                # old sequence protocol (__getitem__ / IndexError)
+                yield (req, k, w, 1) if (req + k) % 3 else _OldSeq((req, k, w, 1))
             else:
-                yield {"req": req, "k": k, "w": w, "shape": 2}
+                # whatever `**` accepts: a dict, or a record that has keys() and __getitem__
+                # without being a registered Mapping (sqlite3.Row and the like)
+                d = {"req": req, "k": k, "w": w, "shape": 2}
+                yield d if (req + k) % 3 else _Row(d)
             k += 1
 
     # ------------------------------------------------------------------ control
@@ -665,6 +705,13 @@ class PoolRun:
                     f"@{req:02d}{kv['w']}" if req < 100 and len(kv["w"]) == 2 else ("apply", req, kv["w"])][req % 3]
             kwargs = [None, {}, {"k1": "v1"}][req % 3]
             ecb, ccb = self._make_cb("e", kv["ecb"]), self._make_cb("c", kv["ccb"])
+            if g and req % 2 and "1" not in kv["bad"]:
+                # with an explicit group name the function need not have a __name__: a
+                # functools.partial of a coroutine function is a coroutine function for asyncio
+                # (only for requests none of whose calls raises: the library's log line for a
+                # raising call uses func.__name__ - a documented limit of the label domain)
+                import functools
+                func = functools.partial(func)
             if (req // 3) % 2 == 0:
                 # the way the documentation writes it: keyword arguments, and whatever equals the
                 # documented default (kwargs=None, num=1, group_name=None, no callbacks) left out
@@ -686,6 +733,9 @@ class PoolRun:
             meth = [p.map, p.starmap, p.doublestarmap][stars]
             ecb, ccb = self._make_cb("e", kv["ecb"]), self._make_cb("c", kv["ccb"])
             it = self._arg_iterable(self.n_req, stars, els)
+            if g and self.n_req % 2 and not any(e[0] == "1" for e in els):
+                import functools
+                func = functools.partial(func)
             if (self.n_req // 2) % 2 == 0:
                 # keyword style, documented defaults (num_concurrent=1, group_name=None, no
                 # callbacks) left out
